@@ -28,31 +28,32 @@ Theorem C32_ascii_is_valid : forall s, forallb (fun b => b <? 128) s = true -> u
 Proof. exact ascii_utf8_ok. Qed.
 Print Assumptions C32_ascii_is_valid.
 
-(* Unquote is NOT crash-free on arbitrary input: backslash-u followed by exactly three bytes passes the
+(* Facts about the model (C32 states no crash clause; these engine crashes are listed under C10).
+   Unquote is NOT crash-free on arbitrary input: backslash-u followed by exactly three bytes passes the
    `i+4 > len(s)` test and then slices s[i+1:i+5] *)
-Theorem C32_unquote_never_panics_refuted : exists s, s = [92; 117; 49; 50; 51] /\ unquote s = RPanic.
+Theorem C32_unquote_panics_on_short_u_escape_fact : exists s, s = [92; 117; 49; 50; 51] /\ unquote s = RPanic.
 Proof. exact (ex_intro _ _ (conj eq_refl unquote_panics_short_u)). Qed.
-Print Assumptions C32_unquote_never_panics_refuted.
+Print Assumptions C32_unquote_panics_on_short_u_escape_fact.
 
 (* ... and an escaped surrogate (backslash-u d800; or the JSON text of U+1F600 written as a surrogate pair)
    makes decodeEscapedUnicode slice char[0:-1] *)
-Theorem C32_unquote_surrogate_escape_refuted :
+Theorem C32_unquote_panics_on_surrogate_escape_fact :
   unquote [92; 117; 100; 56; 48; 48] = RPanic /\
   unquote [34; 92; 117; 100; 56; 51; 100; 92; 117; 100; 101; 48; 48; 34] = RPanic.
 Proof. exact unquote_panics_surrogate. Qed.
-Print Assumptions C32_unquote_surrogate_escape_refuted.
+Print Assumptions C32_unquote_panics_on_surrogate_escape_fact.
 
 (* UnquoteBytes indexes b[i] after a trailing backslash (Unquote returns the backslash) *)
-Theorem C32_unquote_bytes_trailing_backslash_refuted :
+Theorem C32_unquote_bytes_panics_on_trailing_backslash_fact :
   unquote_bytes [97; 92] = RPanic /\ unquote [97; 92] = ROk [97; 92].
 Proof. exact unquote_bytes_panics_trailing_backslash. Qed.
-Print Assumptions C32_unquote_bytes_trailing_backslash_refuted.
+Print Assumptions C32_unquote_bytes_panics_on_trailing_backslash_fact.
 
 (* UnquoteBytes keeps only the first byte of a multi-byte backslash-u result (backslash-u 00e9 -> C3), Unquote keeps C3 A9 *)
-Theorem C32_unquote_bytes_equals_unquote_refuted :
+Theorem C32_unquote_bytes_truncates_fact :
   unquote_bytes [92; 117; 48; 48; 101; 57] = ROk [195] /\ unquote [92; 117; 48; 48; 101; 57] = ROk [195; 169].
 Proof. exact unquote_bytes_truncates. Qed.
-Print Assumptions C32_unquote_bytes_equals_unquote_refuted.
+Print Assumptions C32_unquote_bytes_truncates_fact.
 
 (* non-vacuity: a string with controls, quote, backslash, DEL, two- and four-byte characters is valid; its
    quoted form; error outcomes of Unquote *)
